@@ -45,6 +45,8 @@ func main() {
 		"x position in the answer {nothing sent, inside the headers, headers done, inside the data (sampled byte offsets; thorough: every offset), data line complete, frame complete} " +
 		"x framing {Content-Length, chunked, until-EOF, pipe} x {1, 3} calls pending x {0, 1} calls answered before the fault x caller context {none, cancel, deadline, transport timeout}; " +
 		"plus handshake scripts on all three clients (the event stream is up and no endpoint event comes; the initialize POST is accepted and never answered / never responded to / reset / answered 500 / by an error reply / by a result that does not parse; notifications/initialized is refused / reset; the child never answers initialize / answers an error / garbage / exits), each followed by Close() after the failed Initialize returned or while it is in flight (the peer answers after the Close), then the census incl. the peer's view of its event streams; " +
+		"plus retrying clients (WithRetry, back-off 3 s): a retryable failure of the first attempt (503 / reset / FIN) and the caller's context ending during the back-off (cancel / deadline), while the first or the second attempt is in flight, and a second attempt that is answered: return within 1 s of the context's end; " +
+		"plus requests of the server on the client side (roots/list and an unknown method on the Streamable listening stream / the legacy SSE stream / the child's stdout): the peer accepts the POST with the client's answer and stalls on it (no response / headers only / part of the body; a child that does not read), then Close(): the peer sees that POST's connection dropped within 2 s, census; " +
 		"plus the server half (raw TCP peers against the real Streamable HTTP and legacy SSE servers: handshake, listening stream, a tools/call blocking on its context; every connection then closed / reset; census), " +
 		"the same census in the configurations of the servers (no context function / one deriving from the context it is given / one returning a context of its own lineage / a cancellable application context, legacy SSE keep-alive on and off), a real client whose session the server forgets behind its back (DELETE from elsewhere, 404 to its next calls, census of its connections after Close), " +
 		"plus server-issued requests (ListRoots / SendRequest from outside and from a tool handler, on the Streamable, legacy SSE and stdio servers) racing with the peer dropping its stream: refused (no stream), written to a dead connection (the stream's handler held at its scheduling point get:woken after the peer's reset / close), write blocked then reset, queue / message channel full (the peer stopped reading), waiting for an answer when every connection is reset, free-running races; once every request has returned the server's pending table must be empty; Close() on a live child, Close() right after Initialize (listening stream started afterwards), kill -9 + Close() with 64 calls pending (in a re-executed copy: a panic there is an observation, not a crash of the harness); " +
@@ -438,6 +440,8 @@ func run(c *hk.Ctx) {
 		timing[name] = time.Since(ts).Seconds()
 	}
 	special("handshake", runHandshakes)
+	special("backoff", runBackoffs)
+	special("srvAnswer", runSrvAnswers)
 	special("closeLive", runCloseLive)
 	special("getAfterClose", runGetAfterClose)
 	special("serverSide", runServerSide)
